@@ -694,9 +694,9 @@ class C17(Spec):
             qs.append(q)
         # object lifecycle: new / configure / free with the k-th request failing (memory safety on)
         for side, units in (('checker', CORE_UNITS), ('builder', BUILDER_UNITS)):
-            for k in ([-1] + list(range(0, 8 if tier == 'quick' else 12))):
+            for k in ([-1] + list(range(0, (8 if side == 'checker' else 14) if tier == 'quick' else 18))):
                 q = Query('C17.lifecycle.%s.%s' % (side, 'nofault' if k < 0 else 'k%02d' % k), 'lifecycle.c', units,
-                          defines=['FAULT_K=%d' % k, 'VJ_CHECK_DEAD', 'VJ_MAXM=4'] + (['SIDE_CHECKER'] if side == 'checker' else []),
+                          defines=['FAULT_K=%d' % k, 'VJ_CHECK_DEAD', 'VJ_FREE_ROOTS', 'VJ_MAXM=4'] + (['SIDE_CHECKER'] if side == 'checker' else []),
                           unwind=14, checks='memsafe-noconv', budget=600,
                           bounds={'failing allocation index': k, 'scenario': 'new, setkey, one claim (and header) set/get, leeway/offset, free'})
                 qs.append(q)
